@@ -54,6 +54,13 @@ pub fn seeds() -> Vec<String> {
         // an empty block first
         "<h2></h2><p>qa qb qc</p>",
         "<ul><li><p> </p>qa qb</li></ul>",
+        // preformatted blocks that hold only blank / white-space lines, followed by a block
+        "<pre> \n\n  </pre><p>qa</p>",
+        "<p>qa</p><pre>\n \n</pre><p>qb</p>",
+        "<ul><li><pre>  \n</pre>qa</li></ul><p>qb</p>",
+        // an image whose alt text is longer than any minimum wrap width, inside prefixed blocks
+        "<blockquote><img src=\"/s\" alt=\"qaqbqcqdqeqf\"></blockquote>",
+        "<ul><li><ul><li><img src=\"/s\" alt=\"qaqbqcqdqeqf\"> qg</li></ul></li></ul>",
     ]
     .iter()
     .map(|s| s.to_string())
@@ -69,6 +76,8 @@ pub struct TableCase {
     pub cols: usize,
     /// (row, first column, span, letter)
     pub cells: Vec<(usize, usize, usize, Option<char>)>,
+    /// the content template of each cell (before letter substitution), parallel to `cells`
+    pub contents: Vec<String>,
 }
 pub fn n_tables(rows: usize, cols: usize, ncontents: usize) -> u64 {
     let comps = compositions(cols);
@@ -117,6 +126,7 @@ pub fn table_case(rows: usize, cols: usize, contents: &[&str], mut i: u64, wrap:
     assert!(found, "table index out of range");
     let mut html = String::from("<table>");
     let mut cells = vec![];
+    let mut cell_contents = vec![];
     let mut letter = b'a';
     let mut cc = i;
     for (r, t) in tilings.iter().enumerate() {
@@ -134,12 +144,13 @@ pub fn table_case(rows: usize, cols: usize, contents: &[&str], mut i: u64, wrap:
                 html.push_str(&format!("<td>{body}</td>"));
             }
             cells.push((r, col, span, if c.contains('X') { Some(l) } else { None }));
+            cell_contents.push(body.clone());
             col += span;
         }
         html.push_str("</tr>");
     }
     html.push_str("</table>");
-    TableCase { html: wrap(&html), rows, cols, cells }
+    TableCase { html: wrap(&html), rows, cols, cells, contents: cell_contents }
 }
 
 /// Grammar documents + seeds (+ a slice of the table universe), serialised and de-duplicated.
